@@ -330,9 +330,10 @@ pub fn derive_binary_codec(input: TokenStream) -> TokenStream {
             })
         }
     } else {
+        let name_string = name.to_string();
         quote! {
             #(#deserialization_commands)*
-            unreachable!()
+            Err(deserializer.invalid_constructor_id(#name_string))
         }
     };
 
